@@ -12,7 +12,7 @@ import (
 
 func init() {
 	registerProperty(&Property{
-		ID: "C03",
+		ID:          "C03",
 		Explanation: "Decides structural necessary conditions of the evaluator: (R1) there is exactly one hand-off site to Executor.Run in the module, reached only with the task lock held, the state found INIT (runner election) and set to WAITING first; (R2) every switch over a TaskState in the evaluator's state machine names every state (or has a default) and the sibling switches of Enqueue and Return agree on the class of each state — OK satisfied/releases, ERR records the evaluation error, LOST/INIT (re)enqueue, WAITING/RUNNING schedule-and-wait; (R3) every write of a terminal state to Task.state happens with the task lock held and is followed by Broadcast before the lock is released; (R4) the consecutive-loss bound is positive, counted only in the LOST arm, reset only in the OK arm, by the runner only, and tripping it sets ERR with a non-nil error and broadcasts; (R5) dependents are released only in the OK arm. Not decided: progress over all histories, minimality of the traversal, the waitlist arithmetic.",
 		Rules: []Rule{
 			{ID: "C03-R1", Doc: "single hand-off site under lock, INIT->WAITING election", Run: c03r1},
@@ -589,6 +589,15 @@ func c03r4(c *RC) {
 			return true
 		})
 	}
+	// a success ends the run of consecutive losses
+	nReset := 0
+	for _, o := range c.Obls {
+		if strings.HasSuffix(o.Key, "|loss-count-reset-in-OK-arm") && o.OK {
+			nReset++
+		}
+	}
+	c.Check(nReset > 0, hq+"|success-ends-the-run-of-losses", pr.Pos(host.Body.Pos()),
+		"nothing resets Task.consecutiveLost when the task completes: the bound counts every loss the task ever suffers instead of losses in a row, so a task that is lost, recomputed successfully and lost again (reused results, discards, repeated machine failures) is declared failed on its fifth loss although every retry succeeded")
 	// the comparison and the tripping branch
 	var trip *ast.IfStmt
 	ast.Inspect(host.Body, func(n ast.Node) bool {
@@ -697,6 +706,179 @@ func c03r5(c *RC) {
 		}
 	}
 	c.Floor("calls of state.done", n, 1)
+	// Only an OK task counts as satisfied: every other arm of Enqueue's state
+	// switch adds the task to the number its phase is still waiting for (the
+	// function's result, which callers compare with 0 to decide readiness).
+	if enq := c.MustFn("exec.(*state).Enqueue"); enq != nil {
+		res := ""
+		if enq.Type.Results != nil && len(enq.Type.Results.List) == 1 && len(enq.Type.Results.List[0].Names) == 1 {
+			res = enq.Type.Results.List[0].Names[0].Name
+		}
+		sws := stateSwitches(pr, enq)
+		if res == "" || len(sws) == 0 {
+			c.Undecide("%s: no named count result or no state switch", enq.QName())
+		} else {
+			fl := pr.Flow(enq)
+			for _, cs := range sws[0].Body.List {
+				cc := cs.(*ast.CaseClause)
+				var names []string
+				for _, e := range cc.List {
+					names = append(names, expr(e))
+				}
+				arm := strings.Join(names, ",")
+				if cc.List == nil {
+					arm = "default"
+				}
+				if arm == "TaskOk" {
+					// must not count
+					cnt := false
+					for _, st := range cc.Body {
+						ast.Inspect(st, func(n ast.Node) bool {
+							if inc, ok := n.(*ast.IncDecStmt); ok && expr(inc.X) == res {
+								cnt = true
+							}
+							return true
+						})
+					}
+					c.Check(!cnt, enq.QName()+"|arm:TaskOk|counts-as-satisfied", pr.Pos(cc.Pos()), "a completed task is counted as unsatisfied: its dependents never become ready")
+					continue
+				}
+				// every path through the arm passes an increment of the result
+				counted := len(cc.Body) > 0
+				if counted {
+					first, ok := Loc{}, false
+					var firstPos token.Pos
+					for _, b := range fl.G.Blocks {
+						if !b.Live {
+							continue
+						}
+						for i, nd := range b.Nodes {
+							if nd.Pos() >= cc.Body[0].Pos() && nd.Pos() < cc.End() && (!ok || nd.Pos() < firstPos) {
+								first, ok, firstPos = Loc{b, i}, true, nd.Pos()
+							}
+						}
+					}
+					if !ok {
+						c.Undecide("%s: arm %s not in the flow graph", enq.QName(), arm)
+						continue
+					}
+					end := cc.End()
+					fl.Walk(first, "", nil, Visitor{NoFacts: true,
+						Node: func(n ast.Node, x string, st *Step) (string, bool) {
+							if n.Pos() < cc.Pos() || n.Pos() >= end {
+								// left the arm
+								if x != "inc" {
+									counted = false
+								}
+								return x, true
+							}
+							if inc, ok := n.(*ast.IncDecStmt); ok && inc.Tok == token.INC && expr(inc.X) == res {
+								return "inc", false
+							}
+							return x, false
+						},
+						Exit: func(kind ExitKind, ret *ast.ReturnStmt, x string, st *Step) {
+							if kind != ExitPanic && x != "inc" {
+								counted = false
+							}
+						}})
+				}
+				c.Check(counted, enq.QName()+"|arm:"+arm+"|counts-as-unsatisfied", pr.Pos(cc.Pos()),
+					"a task in state "+arm+" is not counted among the tasks its phase is waiting for: the phase reports 0 waiting, so dependents are started (or the evaluation reports success) although this task has not completed successfully")
+			}
+		}
+	}
+	// Released dependents are re-examined, not started: a task whose last
+	// awaited dependency completed goes back through Enqueue (which looks at
+	// the current state of every dependency — one that completed earlier may
+	// have been lost since), never straight onto the todo list.
+	nRel := 0
+	for _, fn := range pr.FuncsIn("exec") {
+		if fn.Body == nil {
+			continue
+		}
+		ast.Inspect(fn.Body, func(nd ast.Node) bool {
+			rng, ok := nd.(*ast.RangeStmt)
+			if !ok {
+				return true
+			}
+			k, ok := ast.Unparen(rng.X).(*ast.CallExpr)
+			if !ok || fn.Pkg.CalleeName(k) != "exec.(*state).done" {
+				return true
+			}
+			nRel++
+			v := expr(rng.Value)
+			enq, other := false, ""
+			for _, call := range callsIn(rng.Body) {
+				uses := false
+				for _, a := range call.Args {
+					if expr(a) == v {
+						uses = true
+					}
+				}
+				if !uses {
+					continue
+				}
+				if fn.Pkg.CalleeName(call) == "exec.(*state).Enqueue" {
+					enq = true
+				} else {
+					other = fn.Pkg.CalleeName(call)
+				}
+			}
+			c.Check(enq && other == "", fn.QName()+"|released-dependents-are-re-examined", pr.Pos(rng.Pos()),
+				"the tasks released by state.done are passed to "+other+" instead of (only) Enqueue: they are started without their dependencies being looked at again, so a dependency that completed earlier and was lost in the meantime is not recomputed — the task is handed out with a lost dependency")
+			return true
+		})
+	}
+	c.Floor("loops over released dependents", nRel, 1)
+	// who may put a task on the todo list: Enqueue, for the task whose state it
+	// just examined; Return, for the returned task itself (default arm)
+	nSched := 0
+	for _, fn := range pr.FuncsIn("exec") {
+		if fn.Body == nil {
+			continue
+		}
+		for _, call := range callsIn(fn.Body) {
+			if fn.Pkg.CalleeName(call) != "exec.(*state).schedule" || len(call.Args) != 1 {
+				continue
+			}
+			nSched++
+			arg := expr(call.Args[0])
+			key := fmt.Sprintf("%s|todo-entry#%d", fn.QName(), nSched)
+			switch fn.QName() {
+			case "exec.(*state).Enqueue":
+				// the argument is the variable of the loop over the phase whose
+				// state is switched on
+				okArg := false
+				for _, sw := range stateSwitches(pr, fn) {
+					if sw.Pos() <= call.Pos() && call.End() <= sw.End() {
+						if k, ok := ast.Unparen(sw.Tag).(*ast.CallExpr); ok {
+							if sel, ok := k.Fun.(*ast.SelectorExpr); ok && expr(sel.X) == arg {
+								okArg = true
+							}
+						}
+					}
+				}
+				c.Check(okArg, key, pr.Pos(call.Pos()), "Enqueue schedules "+arg+", which is not the task whose state it has just examined")
+			case "exec.(*state).Return":
+				p0 := ""
+				if fn.Type.Params != nil && len(fn.Type.Params.List) == 1 && len(fn.Type.Params.List[0].Names) == 1 {
+					p0 = fn.Type.Params.List[0].Names[0].Name
+				}
+				// not shadowed: the call is not inside a range/func that rebinds the name
+				shadow := false
+				for _, anc := range pathTo(fn.Body, call) {
+					if r, ok := anc.(*ast.RangeStmt); ok && (expr(r.Key) == p0 || expr(r.Value) == p0) {
+						shadow = true
+					}
+				}
+				c.Check(arg == p0 && !shadow, key, pr.Pos(call.Pos()), "Return puts a task other than the returned one on the todo list without examining it (only Enqueue may decide that a task is ready)")
+			default:
+				c.Fail(key, pr.Pos(call.Pos()), fn.QName()+" puts a task on the evaluator's todo list; only Enqueue (after examining the task and its dependencies) and Return (for the returned task) may")
+			}
+		}
+	}
+	c.Floor("todo-list entry sites", nSched, 3)
 	// Done(): evaluation finishes only when nothing is pending/todo or an error was recorded
 	if fn := c.MustFn("exec.(*state).Done"); fn != nil {
 		txt := ""
